@@ -72,7 +72,7 @@ func (g *worldGen) leaf(name string) interface{} {
 		if g.pct(10) {
 			return "NOT_A_VALUE"
 		}
-		if g.pct(g.k.WrongKind) {
+		if g.k.WrongKind > 0 && g.pct(8+g.k.WrongKind) {
 			return []interface{}{7} // unhashable: the enum's value lookup panics while serialising this item
 		}
 		return ev.Internal
@@ -165,6 +165,26 @@ func (g *worldGen) value(te *gq.TypeExpr, depth int) interface{} {
 		out := []interface{}{}
 		for i := 0; i < n; i++ {
 			out = append(out, g.wrapThunk(g.value(te.Of, depth+1)))
+		}
+		// an item whose leaf serialisation panics, between items that serialise (only that item may be nulled)
+		if it := te.Of; g.k.WrongKind > 0 && it.Kind != "list" && g.pct(25) {
+			named := it
+			if named.Kind == "nonNull" {
+				named = named.Of
+			}
+			if td := g.s.Type(named.Name); named.Kind == "named" && td != nil {
+				var bad interface{}
+				switch {
+				case td.Kind == "ENUM":
+					bad = []interface{}{7}
+				case td.Kind == "SCALAR" && td.Builtin == "":
+					bad = 2
+				}
+				if bad != nil {
+					at := g.r.Intn(len(out) + 1)
+					out = append(out[:at], append([]interface{}{bad}, out[at:]...)...)
+				}
+			}
 		}
 		return out
 	}
